@@ -232,6 +232,24 @@ def check_adjoint(op, site, first, stats, depth=2, approx=False):
                          '<A x, y> = %r but <x, A* y> = %r for x = basis vector %d of %r, y = basis '
                          'vector %d of %r (max defect %.3g over %d pairs)'
                          % (Lm[i, j], Rm[i, j], j, dom, i, ran, D.max(), D.size))
+    # the same identity with the adjoint evaluated in place (what the solvers do): a fresh
+    # (poisoned) out for every basis vector of the range
+    if not S.is_field(dom):
+        try:
+            worst = 0.0
+            for i, y in enumerate(ey):
+                o = dom.element()
+                r = adj(y, out=o)
+                stats['evals'] += 1
+                a, b = S.to_flat(o), S.to_flat(By[i])
+                df = np.abs(a - b).max() if a.size else 0.0
+                if r is not o or not (df <= tol * (1 + np.abs(b).max())):
+                    first.setdefault((site, 'adjoint_identity_fails_for_inplace_call'),
+                                     'A*(y, out=z) leaves %s in z but A*(y) = %s for y = basis vector '
+                                     '%d of %r' % (a.tolist(), b.tolist(), i, ran))
+                    break
+        except Exception as e:
+            first.setdefault((site, 'adjoint_inplace_call_raises:' + type(e).__name__), repr(e)[:300])
     # adjoint.adjoint acts like A
     try:
         aa = adj.adjoint
